@@ -1,5 +1,6 @@
 import DracoProps.C09
 import DracoProofs.EbAssignPoints
+import DracoProofs.EbEncCounts2
 /-
   C09 for Edgebreaker, on the CORNER-TABLE models (DracoModel/EbConnectivity.lean `assignPoints`,
   DracoModel/EbEncoder.lean `computeNumberOfEncodedPoints`): closes, on the decoder's side, the gap of DracoProps/C09.lean
@@ -14,9 +15,15 @@ import DracoProofs.EbAssignPoints
     of the ENCODER's per-vertex formula `Counts.encPoints` over the same fans, under H2 (seam flags sound).
   * `eb_points_refine_vertices`: corners with the same point have the same base vertex and the same vertex in every
     attribute corner table (the consistency `assign_points_correspond` rests on).
-  Evaluated, not proved here: that the encoder's fans (`computeNumberOfEncodedPoints` on the encoder's table) are the
-  images of the decoder's under the checked isomorphism, `processed.size = num_faces − NumDegeneratedFaces`
-  (`counts-ok` compares both counts on every case).
+  * `eb_encoded_points_fans` (ENCODER half): `ComputeNumberOfEncodedPoints` (model `computeNumberOfEncodedPoints`) returns
+    `(num_vertices − isolated) + Σ_v (encPoints (fanOfE …) − 1)` with the fan READ OFF the encoder's corner table
+    (`fanOfE`: swing-right walk from `vc[v]`, `closed = SwingLeft(vc[v]) ≠ invalid`), when the closedness test agrees with
+    the walk (`ClosedOK`; derived from table invariants / `CornerTable.create` in DracoProofs/EbEncCounts2.lean:
+    `computeNumberOfEncodedPoints_tbl`, `_create`, `_of_encode`); `= num_vertices − isolated` for ≤ 1 attribute.
+  Evaluated, not proved here: that the encoder's fans are the images of the decoder's under the checked isomorphism,
+  and `processed.size = num_faces − NumDegeneratedFaces` (`encodeConnectivity_faces` in DracoProofs/EbEncCounts.lean
+  proves `≤`, distinctness, non-degeneracy, and equality IFF every non-degenerate face is reached by the traversal);
+  `counts-ok` compares both counts on every case.
 -/
 namespace Draco.C09Eb
 open Draco Draco.Eb Draco.EbEnc Draco.Counts
@@ -76,5 +83,26 @@ example : (4 : Nat) = (((List.range AP.tetra.vc.size).filter (fun v => AP.tetra.
 example : ∀ c c', c < 12 → c' < 12 → (#[0, 1, 2, 0, 3, 1, 1, 3, 2, 2, 3, 0] : Array Nat)[c]! =
     (#[0, 1, 2, 0, 3, 1, 1, 3, 2, 2, 3, 0] : Array Nat)[c']! → AP.tetra.c2v[c]! = AP.tetra.c2v[c']! :=
   fun c c' h1 h2 h => ((eb_points_refine_vertices AP.tetra 4 #[exAtt] _ 4 0 AP.tetra_hyp rfl exAssign).2.2 c c' h1 h2 h).1
+
+open Draco.EbEnc.EncCounts in
+/-- **points the encoder reports = (vertices − isolated) + Σ over the fans of the encoder's corner table** -/
+theorem eb_encoded_points_fans (atts : Array Attribute) (conn : ConnEnc) (used : Array AttConn) (n : Nat)
+    (hatts : atts.size > 1)
+    (hcl : ∀ v, v < conn.ct.numVertices → conn.ct.vc[v]! ≠ inv → ClosedOK conn.ct v)
+    (h : computeNumberOfEncodedPoints atts conn used = .ok n) :
+    n = (conn.ct.numVertices - conn.ct.numIsolated) +
+      ((List.range conn.ct.numVertices).map (extraPoints conn.ct used)).sum :=
+  computeNumberOfEncodedPoints_fan atts conn used n hatts hcl h
+
+open Draco.EbEnc.EncCounts in
+/-- non-vacuity: a closed fan of three triangles, one attribute table with a seam: 4 vertices + 1 -/
+example : (5 : Nat) = (exConn.ct.numVertices - exConn.ct.numIsolated) +
+    ((List.range exConn.ct.numVertices).map (extraPoints exConn.ct #[EncCounts.exAtt])).sum :=
+  eb_encoded_points_fans #[exAttr, exAttr] exConn #[EncCounts.exAtt] 5 (by decide)
+    (by intro v hv _
+        have hv' : v < 4 := hv
+        obtain rfl | rfl | rfl | rfl : v = 0 ∨ v = 1 ∨ v = 2 ∨ v = 3 := by omega
+        all_goals (unfold ClosedOK; decide +kernel))
+    (by decide +kernel)
 
 end Draco.C09Eb
